@@ -123,7 +123,7 @@ Proof.
   induction recsl as [|i t IH]; intros loc qc m c m' c' Hx; cbn [additional] in Hx; [inversion Hx; split; reflexivity|].
   destruct (target_of i) as [name|]; [|eapply IH; eauto].
   destruct (negb (has_record m name 1) || negb (has_record m name 28)); [|eapply IH; eauto].
-  destruct (rd_rr C rd wrs c name loc (add_cb (negb (has_record m name 1)) (negb (has_record m name 28))) wrs_empty)
+  destruct (rd_rr C rd wrs c (lower_bytes name) loc (add_cb (negb (has_record m name 1)) (negb (has_record m name 28))) wrs_empty)
     as [[[w e] c1]| |]; cbn [bind] in Hx; try discriminate.
   apply IH in Hx. exact Hx.
 Qed.
